@@ -61,6 +61,18 @@ fn check_heads(m: &Melda, known: &[DeltaId]) {
     let _ = known;
 }
 
+/// an element object that is not deleted (the root if there is none)
+fn live_element(m: &Melda) -> String {
+    for id in ["a", "b", "c", "d"] {
+        if let Ok(v) = m.get_value(id, None) {
+            if !v.contains_key("_deleted") {
+                return id.to_string();
+            }
+        }
+    }
+    "√".to_string()
+}
+
 fn meta(tag: &str) -> Option<Map<String, Value>> {
     Some(obj(json!({"author": tag, "note": sym::string(PRINTABLE, 1, 1), "n": {"k": [1, 2]}})))
 }
@@ -105,7 +117,9 @@ pub fn build(k: usize, nsym: usize) -> Hist {
     a.m.update(d).unwrap();
     ids.push(checked_commit(&a, Some(Map::new())));
     points.push((a.m.get_anchors(), state(&a.m)));
-    a.m.update(doc_with(&["b"], &["z".to_string()], "u")).unwrap();
+    // the last block stores no new content (a deletion only): a block without pack
+    let victim = live_element(&a.m);
+    a.m.delete_object(&victim).unwrap();
     ids.push(checked_commit(&a, None));
     points.push((a.m.get_anchors(), state(&a.m)));
     Hist { a, b, points, ids }
@@ -141,16 +155,17 @@ pub fn commit_graph() {
     }
     ra.reload().expect("reload");
     assert!(ra.get_anchors() == h.a.m.get_anchors(), "heads after reload differ");
-    // re-doing, after a time travel, exactly the edit of a block that is already stored: the commit must behave
-    // like any other (one head: the block; its parents the previous heads)
-    let first: BTreeSet<DeltaId> = [h.ids[0].clone()].into_iter().collect();
-    ra.reload_until(&first).expect("reload_until first block");
-    ra.update(doc_with(&["a", "b"], &["x".to_string(), "y".to_string()], "t")).expect("redo update");
-    let info1 = h.a.m.get_delta(&h.ids[1]).unwrap().unwrap().info;
-    let c = ra.commit(info1).expect("redo commit").expect("redo produced no block");
+    // re-doing, after a time travel, exactly the edit of a block that is already stored (the last block: a deletion,
+    // no pack, same parents): the commit must behave like any other (one head: the block; parents the previous heads)
+    let n = h.ids.len();
+    let prev: BTreeSet<DeltaId> = [h.ids[n - 2].clone()].into_iter().collect();
+    ra.reload_until(&prev).expect("reload_until the block before the last");
+    let victim = live_element(&ra);
+    ra.delete_object(&victim).expect("redo delete");
+    let c = ra.commit(None).expect("redo commit").expect("redo produced no block");
     assert!(ra.get_anchors() == c, "after re-doing a stored block the heads are not the committed block");
     let d = ra.get_delta(c.iter().next().unwrap()).unwrap().unwrap();
-    assert!(d.parents.clone().unwrap_or_default() == first, "re-done block has wrong parents");
+    assert!(d.parents.clone().unwrap_or_default() == prev, "re-done block has wrong parents");
     check_heads(&ra, &h.ids);
     sym::reach(1);
 }
